@@ -77,7 +77,8 @@ def _dict(it, ctx, a, k):
 
 @op("builtins.set")
 def _set(it, ctx, a, k):
-    return VTuple(it.iterate(ctx, a[0])) if a else VTuple([])
+    from .values import VSet
+    return VSet(it.iterate(ctx, a[0]) if a else [])
 
 
 @op("builtins.slice")
